@@ -8,6 +8,8 @@ import PhpVerif.Spec.Precedence
 import PhpVerif.Model.Pratt
 import PhpVerif.Model.Render
 import PhpVerif.Props.C15
+import PhpVerif.Gen.Tables7
+import PhpVerif.Gen.Tables5
 /-
 Line-protocol driver: runs the executable model definitions on the operations the Go harness
 also runs on the real code.  One request per line, one answer per line.  Core only (no Mathlib)
@@ -190,6 +192,34 @@ def litBytes (id : Nat) : Bytes :=
   | some (_, b) => b.map (fun n => UInt8.ofNat n)
   | none => []
 
+/-! `yy <5|7> <chars>`: run the goyacc driver model on a sequence of external token numbers and print its
+    moves in the vocabulary of goyacc's debug trace -/
+def yyEvStr (t : YYTab) : YYEv → String
+  | .shift _ _ => ""
+  | .reduce p st => s!"r{p}:{st}"
+  | .saw st tk =>
+    match yyExpected t st with
+    | .ok none => s!"w{st}:{tk}:-"
+    | .ok (some l) => s!"w{st}:{tk}:e" ++ "+".intercalate (l.map toString)
+    | .error _ => s!"w{st}:{tk}:fault"
+  | .pop st => s!"p{st}"
+  | .errShift _ => ""
+  | .discard tk => s!"d{tk}"
+  | .accept => "A"
+  | .abort => "B"
+
+def yyFaultStr : YYFault → String
+  | .index tb i => s!"fault:index:{tb}:{i}"
+  | .underflow => "fault:underflow"
+  | .sem m => s!"fault:sem:{m}"
+
+def runYY (t : YYTab) (chars : List Nat) : String :=
+  let input := chars.toArray
+  match yyRun t unitSem input (64 * (chars.length + 16) + 1024) (yyInit unitSem) with
+  | .error f => yyFaultStr f
+  | .ok (none, _) => "fuel"
+  | .ok (some c, s) => s!"{c} " ++ " ".intercalate ((s.trace.reverse.map (yyEvStr t)).filter (· ≠ ""))
+
 def handle (ws : List String) : String :=
   match ws with
   | ["pool", bs, n] =>
@@ -288,6 +318,8 @@ def handle (ws : List String) : String :=
     match pTree (enc.splitOn ",") with
     | some (t, []) => "x" ++ toHex (render litBytes (chunks C15.realCfg false t))
     | _ => "bad-op"
+  | ["yy", "7", cs] => runYY Gen.tables7 (parseNats cs)
+  | ["yy", "5", cs] => runYY Gen.tables5 (parseNats cs)
   | ["nlscan", h, ps] => natsStr (NL.scan (unhex h) (parseNats ps))
   | _ => "bad-op"
 
